@@ -48,7 +48,8 @@ type MuxConfig struct {
 	PKeep    int
 	Budget   int
 	Faults   int
-	Shutdown bool // cancel the lifetime at an arbitrary decision of the chaos phase
+	FaultAt  []int // decision from which the k-th fault may fire (spread runs)
+	Shutdown bool  // cancel the lifetime at an arbitrary decision of the chaos phase
 }
 
 type echoAdmin struct {
@@ -137,6 +138,13 @@ func NewMuxWorld(s *simrt.Sim, prof MuxProfile) (*MuxWorld, error) {
 		c.Faults = 3 + s.Draw(6)
 		c.PKeep = []int{70, 50, 30}[s.Draw(3)]
 		c.Shutdown = false
+	}
+	if s.Draw(2) == 1 {
+		// spread the faults over the run instead of letting the whole budget fire at its start
+		for i := 0; i < c.Faults; i++ {
+			c.FaultAt = append(c.FaultAt, s.Draw(c.Budget))
+		}
+		sort.Ints(c.FaultAt)
 	}
 	w.cfg = c
 	s.SetPKeep(c.PKeep)
@@ -319,6 +327,9 @@ func (w *MuxWorld) Actions() []simrt.Action {
 		acts = append(acts, simrt.Action{Name: name, Weight: weight, Fault: fault, Do: do})
 	}
 	faultsOK := w.phase == 0 && w.faultsLeft > 0 && !w.shutDown
+	if k := w.cfg.Faults - w.faultsLeft; faultsOK && k >= 0 && k < len(w.cfg.FaultAt) && w.s.Stats.Decisions < w.cfg.FaultAt[k] {
+		faultsOK = false
+	}
 	// establisher role: the peer accepts (or mistreats) queued connections
 	if w.peerLis != nil && w.peerLis.Pending() > 0 {
 		add("peer-accept", 8, false, func() {
